@@ -14,10 +14,16 @@ mean.  `receivedPacket_rinv` — every way the receive path touches the register
 packet whose id is `p`" made for a packet it accepted, with `v = true` exactly when none of its bunches was refused;
 `ack_sound` — whenever the sender turns *any* header the receiver can write (any number of history words) into delivery
 statuses, every ACK status names a packet id (mod 2^14) for which the receiver made such a request with verdict `true`.
-Together: **ACK ⇒ the peer accepted that packet and refused none of its bunches.**  What is *not* proved in Lean: the
-uniqueness of the id modulo 2^14 across more than 16384 packets (needs the window hypothesis of the property), the NAK
-direction (`NAK ⇒ never accepted` under the 256-packet hypothesis) and the latency bound; these are checked by the C02
-monitor on the real code (`acc` lines of the trace against every `status` line).
+Together: **ACK ⇒ the peer accepted that packet and refused none of its bunches.**  Third part, with the receiver's
+unbounded packet-id counter as ghost (`RConn`, `receivedPacket_rconn`, `status_exact`): each status `(p, v)` corresponds to a
+position `idx` of the receiver's register, i.e. to the packet `q = InPacketId - idx ≡ p (mod 2^14)`, and `v = true` **iff** the
+receiver asked for `q` to be acknowledged — the "only if" unconditionally, the "if" whenever the position lies inside the
+256-bit register, inside the transmitted words and inside what the receiver has recorded since `utcp_sequence_init`
+(the property's "no more than 256 packets awaiting a verdict"); requests are made for strictly increasing ids, so a packet
+reported NAK under these conditions is never acknowledged later either.  What is *not* proved in Lean: that the sender's
+own full id `p` *equals* `q` (only `p ≡ q (mod 2^14)`; equality needs the in-flight window invariant across both endpoints
+and the network), and the latency bound; these are checked by the C02 monitor on the real code (`acc` lines of the trace
+against every `status` line).
 -/
 namespace Utcp.Props.C02
 open Utcp Utcp.Gen
@@ -355,5 +361,150 @@ theorem keeps_rinv {c c' : Conn} {tg calls : List (Int × Bool)} (hk : Keeps c c
 example : Inv ((({} : Conn).seqInit 16383 0)) := seqInit_inv _ _ _
 example : expected 41 [(0, true), (0, false), (0, true)] = [(44, true), (43, false), (42, true)] := by decide
 example : RInv ((({} : Conn).seqInit 5 16383)).notify [] [] := seqInit_rinv _ _ _
+
+/-! ## the same, with unbounded packet ids: ACK **iff** accepted and not refused -/
+
+/-- a parsed packet header carries a 14-bit sequence number -/
+theorem decode_seq_range (bits : Bits) (hd : NotifHeader) (rest : Bits) (h : decodePacketHeader bits = .ok (hd, rest)) :
+    0 ≤ hd.seq ∧ hd.seq < 16384 := by
+  unfold decodePacketHeader at h
+  have key : ∀ packed : Nat, (0 : Int) ≤ ((packed / 2 ^ 18 % 16384 : Nat) : Int) ∧ ((packed / 2 ^ 18 % 16384 : Nat) : Int) < 16384 := by
+    intro packed; omega
+  cases h1 : readU32 bits with
+  | fail r1 => simp [h1] at h
+  | ok packed r1 =>
+    simp only [h1] at h
+    cases h2 : readBits (32 * min histWordsMax (packed % 16 + 1)) r1 with
+    | fail r2 => simp [h2] at h
+    | ok hist r2 =>
+      simp only [h2] at h
+      cases h3 : readBit r2 with
+      | fail r3 => simp [h3] at h
+      | ok info r3 =>
+        simp only [h3] at h
+        cases info with
+        | false => simp only [Bool.not_false, if_true, Except.ok.injEq, Prod.mk.injEq] at h; obtain ⟨rfl, _⟩ := h; exact key _
+        | true =>
+          simp only [Bool.not_true, Bool.false_eq_true, if_false] at h
+          cases h4 : readInt 1024 r3 with
+          | fail r4 => simp [h4] at h
+          | ok v4 r4 =>
+            simp only [h4] at h
+            cases h5 : readBit r4 with
+            | fail r5 => simp [h5] at h
+            | ok ft r5 =>
+              simp only [h5] at h
+              cases ft with
+              | false => simp only [Bool.not_false, if_true, Except.ok.injEq, Prod.mk.injEq] at h; obtain ⟨rfl, _⟩ := h; exact key _
+              | true =>
+                simp only [Bool.not_true, Bool.false_eq_true, if_false] at h
+                cases h6 : readBits 8 r5 with
+                | fail r6 => simp [h6] at h
+                | ok v6 r6 => simp only [h6, Except.ok.injEq, Prod.mk.injEq] at h; obtain ⟨rfl, _⟩ := h; exact key _
+
+theorem ackSeqLoop_inSeq (fuel : Nat) : ∀ (n : Notify) (acked : Int) (isAck : Bool), (ackSeqLoop fuel n acked isAck).inSeq = n.inSeq := by
+  induction fuel with
+  | zero => intros; rfl
+  | succ f ih =>
+    intro n acked isAck
+    unfold ackSeqLoop
+    split
+    · rw [ih]
+    · rfl
+
+theorem notifyUpdate_inSeq (e : Env) (c : Conn) (h : NotifHeader) : (c.notifyUpdate e h).notify.inSeq = h.seq := by
+  unfold Conn.notifyUpdate; rfl
+
+/-- receiver-side invariant at the connection level: the register describes the packets up to the packet-id counter -/
+structure RConn (c : Conn) (tg calls : List (Int × Bool)) : Prop where
+  reg : RInvF c.notify tg calls c.inPacketId
+  inSeq : 0 ≤ c.notify.inSeq ∧ c.notify.inSeq < 16384
+
+/-- **the receive path, with full packet ids.**  A datagram body either changes nothing the register depends on, or the
+packet is accepted: the counter grows (by less than 2^13) to the packet's id `q`, exactly one request `(q, no bunch refused)` is
+added — for an id larger than every id a request was ever made for — and the register describes the packets up to `q`. -/
+theorem receivedPacket_rconn (e : Env) (c : Conn) (bits : Bits) (tg calls : List (Int × Bool)) (h : RConn c tg calls) :
+    (RConn (c.receivedPacket e bits).1 tg calls ∧ (c.receivedPacket e bits).1.inPacketId = c.inPacketId) ∨
+    (c.inPacketId < (c.receivedPacket e bits).1.inPacketId ∧
+      ∃ tg' refused, RConn (c.receivedPacket e bits).1 tg' (((c.receivedPacket e bits).1.inPacketId, !refused) :: calls)) := by
+  unfold Conn.receivedPacket
+  split
+  · left
+    refine ⟨⟨?_, ?_⟩, markClose_inPacketId _ _⟩
+    · rw [markClose_notify, markClose_inPacketId]; exact h.reg
+    · rw [markClose_notify]; exact h.inSeq
+  · rename_i hd rest hdec
+    dsimp only
+    split
+    · left; exact ⟨h, rfl⟩
+    · rename_i hdelta
+      right
+      have hseq := decode_seq_range bits hd rest hdec
+      -- the counter advances by the circular distance of the header sequence, which is positive and below 2^13
+      have hdl : 0 < c.notify.deltaSeq hd ∧ c.notify.deltaSeq hd < 8192 := by
+        refine ⟨by omega, ?_⟩
+        unfold Notify.deltaSeq
+        split
+        · exact (C13.diff_spec hd.seq c.notify.inSeq ⟨hseq.1, by omega⟩ ⟨h.inSeq.1, by have := h.inSeq.2; omega⟩).2.1
+        · omega
+      obtain ⟨n1, n2, n3⟩ := notifyUpdate_reg e { c with inPacketId := c.inPacketId + c.notify.deltaSeq hd } hd
+      have n4 := notifyUpdate_inSeq e { c with inPacketId := c.inPacketId + c.notify.deltaSeq hd } hd
+      generalize ({ c with inPacketId := c.inPacketId + c.notify.deltaSeq hd } : Conn).notifyUpdate e hd = c2 at n1 n2 n3 n4 ⊢
+      have hs := bunchLoop_sameN (rest.length + 1) c2 rest false
+      generalize Conn.bunchLoop (rest.length + 1) c2 rest false = r at hs ⊢
+      obtain ⟨c3, rest', skip⟩ := r
+      simp only at hs ⊢
+      have h3 : RInvF c3.notify tg calls c.inPacketId := h.reg.congr (by rw [hs.notify]; exact n1) (by rw [hs.notify]; exact n2)
+      have hid : c3.inPacketId = c.inPacketId + c.notify.deltaSeq hd := by rw [hs.inPacketId]; exact n3
+      refine ⟨by rw [hid]; omega, ?_⟩
+      obtain ⟨tg', ht⟩ := ackSeq_rinvF c3.notify tg calls c.inPacketId c3.inPacketId (!skip) h3 (by rw [hid]; omega) (by rw [hid]; omega)
+      refine ⟨tg', skip, ⟨ht, ?_⟩⟩
+      show 0 ≤ (c3.notify.ackSeq c3.inPacketId (!skip)).inSeq ∧ (c3.notify.ackSeq c3.inPacketId (!skip)).inSeq < 16384
+      unfold Notify.ackSeq
+      rw [ackSeqLoop_inSeq, hs.notify, n4]
+      exact hseq
+
+theorem seqInit_rconn (c : Conn) (i o : Int) : RConn (c.seqInit i o) [] [] := by
+  refine ⟨?_, ?_⟩
+  · unfold Conn.seqInit
+    exact init_rinvF _ _ _ _ (by simp only [seq_num_init]; omega)
+  · show 0 ≤ (c.notify.init _ _).inSeq ∧ (c.notify.init _ _).inSeq < 16384
+    unfold Notify.init
+    simp only [seq_num_init]; omega
+
+theorem keeps_rconn {c c' : Conn} {tg calls : List (Int × Bool)} (hk : Keeps c c') (h : RConn c tg calls) : RConn c' tg calls :=
+  ⟨by rw [hk.inPacketId]; exact h.reg.congr hk.hist hk.inAckSeq, by rw [hk.inSeq]; exact h.inSeq⟩
+
+/-- **every delivery status, both ways.**  `R` is the receiver at the moment it writes a header with `w` history words, `c` the
+sender that processes it.  For each status `(p, v)` the sender reports there is a position `idx` of the receiver's register — the
+packet `q = R.inPacketId - idx`, congruent to `p` modulo 2^14 — such that
+* `v = true`  ⇒ the receiver asked for `q` to be acknowledged (it accepted `q` and refused none of its bunches);
+* `v = false` ⇒ if the position lies inside the register (`idx < 256`), inside the words transmitted and inside what the receiver
+  has recorded since its sequence was initialised, the receiver did **not** ask for `q` to be acknowledged — and since requests
+  are only ever made for ids above all earlier ones (`receivedPacket_rconn`), it never will. -/
+theorem status_exact (c : Conn) (R : Conn) (tg calls : List (Int × Bool)) (w : Nat) (hR : RConn R tg calls) (hinv : Inv c) :
+    ∀ p, p ∈ expected c.lastNotified (ackVerdicts c (R.notify.headerWith w)) →
+      ∃ idx : Nat, p.1 % 16384 = (R.inPacketId - (idx : Int)) % 16384 ∧
+        (p.2 = true → (R.inPacketId - (idx : Int), true) ∈ calls) ∧
+        (p.2 = false → idx < 256 → idx < 32 * (min w histWordsMax) → idx < tg.length → (R.inPacketId - (idx : Int), true) ∉ calls) := by
+  intro p hp
+  obtain ⟨j, hj, rfl⟩ := mem_expected _ _ _ hp
+  unfold ackVerdicts at hj
+  by_cases hgt : seq_num_greater_than (R.notify.headerWith w).ackedSeq c.notify.outAckSeq = true
+  · have hav : ackVerdicts c (R.notify.headerWith w) = verdicts c.notify.outAckSeq (R.notify.headerWith w) (seq_num_diff (R.notify.headerWith w).ackedSeq c.notify.outAckSeq).toNat := by
+      unfold ackVerdicts; simp only [hgt, if_true]
+    simp only [hgt, if_true] at hj
+    have ho : 0 ≤ c.notify.outAckSeq ∧ c.notify.outAckSeq < 16384 := by rw [hinv]; omega
+    have hjc : j < (seq_num_diff (R.notify.headerWith w).ackedSeq c.notify.outAckSeq).toNat := by simpa [verdicts] using hj
+    have hx := verdicts_exact R.notify tg calls R.inPacketId w c.notify.outAckSeq hR.reg ho hgt j hjc _ (List.getElem?_eq_getElem hj)
+    have hid := verdicts_seq c (R.notify.headerWith w) _ hinv j hj
+    refine ⟨(seq_num_diff (R.notify.headerWith w).ackedSeq c.notify.outAckSeq).toNat - 1 - j, ?_, ?_, ?_⟩
+    · simp only
+      rw [← hx.1, hid]
+    · simp only [hav]; exact hx.2.1
+    · simp only [hav]; exact hx.2.2
+  · simp [hgt] at hj
+
+example : RConn ((({} : Conn).seqInit 5 16383)) [] [] := seqInit_rconn _ _ _
 
 end Utcp.Props.C02
